@@ -22,7 +22,6 @@ import (
 )
 
 const lpPacketOverhead = 1 + 3 + 1 + 3 // LpPacket and Fragment (Type + Length of up to 2^16 each)
-const pitTokenOverhead = 1 + 1 + 6
 const congestionMarkOverhead = 3 + 1 + 8
 
 const (
@@ -207,10 +206,15 @@ func sendPacket(l *NDNLPLinkService, out dispatch.OutPkt) {
 	// Reserve room for exactly the headers that are attached to each fragment below
 	effectiveMtu := l.transport.MTU() - l.headerOverhead
 	if len(out.PitToken) > 0 {
-		effectiveMtu -= pitTokenOverhead
+		// The token of a downstream is not ours and can have any length (Type + Length + Value)
+		effectiveMtu -= 1 + enc.TLNum(len(out.PitToken)).EncodingLength() + len(out.PitToken)
 	}
 	if congestionMark != nil {
 		effectiveMtu -= congestionMarkOverhead
+	}
+	if effectiveMtu <= 0 {
+		core.LogWarn(l, "Link-layer headers of packet leave no room within the MTU - DROP")
+		return
 	}
 
 	// Fragmentation
